@@ -63,8 +63,6 @@ pub fn sec_sweeps(ctx: &mut Ctx, fonts: &[CorpusFont], items: &mut Items) {
             let tagname = String::from_utf8_lossy(*tag).to_string();
             let salt = (fi * 131 + ti * 17 + ctx.seed as usize) % keep;
             // collect the selected patched buffers first (sweep_region hands out a borrow)
-            let mut mine: Vec<bool> = vec![];
-            let mut sel_idx = 0usize;
             let seed = ctx.seed;
             let name = f.name.clone();
             let mut todo: Vec<String> = vec![];
@@ -73,9 +71,7 @@ pub fn sec_sweeps(ctx: &mut Ctx, fonts: &[CorpusFont], items: &mut Items) {
                     if (i + salt) % keep != 0 {
                         return false;
                     }
-                    let m = items.mine(ctx);
-                    mine.push(m);
-                    m
+                    items.mine(ctx)
                 };
                 // first pass only enumerates which descriptions are ours
                 let mut f2 = |_b: &[u8], d: &str| {
@@ -85,7 +81,6 @@ pub fn sec_sweeps(ctx: &mut Ctx, fonts: &[CorpusFont], items: &mut Items) {
             }
             // second pass: apply each selected edit and drive
             for d in todo {
-                sel_idx += 1;
                 let mut p = Patcher::new();
                 if !apply_desc(&mut buf, &d, &mut p) {
                     continue;
@@ -96,7 +91,6 @@ pub fn sec_sweeps(ctx: &mut Ctx, fonts: &[CorpusFont], items: &mut Items) {
                 drive::drive_sampled(ctx, &fc, cfg);
                 p.undo(&mut buf);
             }
-            let _ = sel_idx;
         }
     }
 }
